@@ -3,7 +3,8 @@ CHECK = {
     "assumptions": [
         "the reference evaluator in harness/policy/c03_ref_test.go is a faithful reading of website/content/docs/concepts/policies.mdx (plus community/rfcs/acl-paginated-lists.mdx and release notes 2.6.0 for pagination)",
         "literal path segments contain neither '+' nor '*' (documented input domain); no leading '/', no legacy `policy = \"...\"` form, no control groups / MFA / templating",
-        "details the documentation does not fix (order in which list/scan consult the path and the path without its trailing slash, merging of parameter constraints and pagination limits across stanzas, parameter constraints on delete/list/scan, max_wrapping_ttl without wrapping, non-numeric limit) are not asserted against the reference, only against order independence / monotonicity / isolation",
+        "details the documentation does not fix (merging of parameter constraints and pagination limits across stanzas, parameter constraints on delete/list/scan, max_wrapping_ttl without wrapping, non-numeric limit) are not asserted against the reference, only against order independence / monotonicity / isolation",
+        "pinned reading (coordinator decision): for list/scan on a path with trailing slash the lookup order exact(path) > exact(path without slash) > non-exact(path) > non-exact(path without slash) is asserted for decisions and Capabilities(), i.e. 'an exact match wins over any glob/wildcard match' also holds in the fallback (policies.mdx priority note + comment in acl.go)",
         "a policy of namespace ns1/ with path P governs requests to ns1/P; the root policy covers its namespace and the descendants (DESIGN.md; the docs do not spell this out)",
     ],
     "units": [
